@@ -30,6 +30,10 @@ CHECKS = {
    text="The denotation of JSONPath expressions (get_spec in Jp/Expr.v: child, index with negative-from-end, wildcard, descent = self and all descendants, union in listed order, slice with the documented normalisation, filter through the script denotation) is an executable Coq specification; theorems proved about it for all paths/data: position independence of every fragment, compositionality of path evaluation, the index law, and the exact membership and ascending order of a positive-step slice. jp.Expr.Get is compared with the extracted get_spec on a complete grid of slice/index/union bounds (-7..7 x steps -3..3 x lengths 0..5, as last and as inner fragment) and on seeded paths x trees (ordered comparison where the order is defined). Paths ending in a bare descent are excluded (no defined result list).",
    technique="Coq-specified denotation with proved laws + grid-exhaustive and seeded correspondence against the extracted specification",
    design='6/C05'),
+ 'C10': dict(
+   text="Proved in Coq over the tables regenerated from string.go and sen/maps.go: every byte AppendSENString leaves bare continues a token for the SEN parser, and every first byte it leaves bare starts a token, except '-' and '+' (stated in the theorem; the recorded known finding). The proof attempt itself exposed that '|', '`' and '&' were written bare but are not token bytes (repaired by a fix: commit). The tree-level round trip sen.Parse(writer(v)) = v is decided on the real code: every special spelling as value/key/array element, all strings of length <= 2 over a 54-piece alphabet as value and key, seeded trees x options, through sen.String/Bytes/Write and pretty.SEN/WriteSEN; a failure is attributed to the known class only if the tree with exactly those strings defused round-trips.",
+   technique="Coq proof of writer-class / parser-table consistency over regenerated tables + exhaustive short-string and seeded round-trip correspondence",
+   design='6/C10'),
  'C11': dict(
    text="Has, First and Locate are modelled in Coq as separately defined evaluators (depth-first search with early exit; selection that carries normalized paths) over the fragment denotation of C05. Proved for all paths and data: Has is true exactly when Get is non-empty, First is the head of Get's result list (hence a member), and the values Locate points at are exactly Get's results in order. The real Has, FirstFound, Locate (every reported path re-evaluated with Get), Expr.Walk, GetNodes/FirstNode/Get on gen data, Get/Has on Keyed+Indexed wrappers and typed slices are compared with the extracted first_spec/has_spec/locate_spec/get_spec on seeded paths x trees. One genuine disagreement (slice normalisation of Locate/Walk, pinned by tests) is a recorded known finding, decided by an extracted specification variant.",
    technique="Coq proofs relating separately modelled evaluators to the Get denotation + correspondence of eight real evaluators and four data representations",
